@@ -447,10 +447,28 @@ class FreeEnergy(InterpolatableFunction):
                         f"vev={ode.y}"
                     )
                     break
-                # append results to lists
-                TList = np.append(TList, [ode.t], axis=0)
-                fieldList = np.append(fieldList, [ode.y], axis=0)
-                potentialEffList = np.append(potentialEffList, [potentialEffT], axis=0)
+                # The integrator always ends exactly at TEnd. When the previous step has
+                # stopped within rounding of it (the range is a multiple of dT), that last
+                # step is many orders of magnitude shorter than dT, and two almost
+                # coincident table points make the derivatives of the interpolated free
+                # energy rounding noise at that end of the table. Such a last point
+                # replaces the previous one instead of being added next to it.
+                lastStepTiny = (
+                    ode.status == "finished"
+                    and TList.size > 0
+                    and abs(ode.t - TList[-1]) < 1e-2 * dT
+                )
+                if lastStepTiny and TList.size > (1 if direction == 0 else 0):
+                    TList[-1] = ode.t
+                    fieldList[-1] = ode.y
+                    potentialEffList[-1] = potentialEffT
+                elif not lastStepTiny:
+                    # append results to lists
+                    TList = np.append(TList, [ode.t], axis=0)
+                    fieldList = np.append(fieldList, [ode.y], axis=0)
+                    potentialEffList = np.append(
+                        potentialEffList, [potentialEffT], axis=0
+                    )
                 fieldPrevious = np.array(ode.y, dtype=float)
             if direction == 0:
                 # populating results array
